@@ -284,6 +284,53 @@ pub fn run_check(ctx: &Ctx) -> Report {
             }
         }
     }
+    // (2b) two calls in ONE program: what a builtin answers for one value must not depend on which other literal values the
+    // program mentions (values that are equal across types or differ only in the sign of zero share a text or compare equal,
+    // which is what constant pools and caches key on); the variable form keeps literals away from the call
+    let look_alikes: Vec<Shape> = {
+        let mut v = Vec::new();
+        for f in [0.0, -0.0, 1.0, -1.0, 15.0, 1.5] {
+            v.push(sh(&format!("float {f:?}"), float_expr(f)));
+        }
+        for i in [0i64, 1, -1, 15] {
+            v.push(sh(&format!("int {i}"), int_expr(i)));
+        }
+        for t in ["0", "-0", "0.0", "-0.0", "1", "15", "1.5", "", "ja"] {
+            v.push(sh(&format!("string {t:?}"), string(t)));
+        }
+        v.push(sh("ja", boolean(true)));
+        v.push(sh("nee", boolean(false)));
+        v.push(sh("null", iff(boolean(false), vec![es(int(1))], None)));
+        v
+    };
+    for b in ["string", "float", "int", "bool", "type", "lengte"] {
+        for s1 in &look_alikes {
+            for s2 in &look_alikes {
+                for form in 0..2 {
+                    rep.eval();
+                    rep.count("pairs-in-one-program");
+                    // every call is made safe on its own: a failing call yields the text "fout" through a guard on the type
+                    let p: BlockStmt = if form == 0 {
+                        vec![let_("r1", calln("string", vec![calln("type", vec![s1.expr.clone()])])), es(array(vec![calln(b, vec![s2.expr.clone()]), ident("r1")]))]
+                    } else {
+                        vec![let_("v1", s1.expr.clone()), let_("v2", s2.expr.clone()), let_("r1", calln("type", vec![ident("v1")])), es(array(vec![calln(b, vec![ident("v2")]), ident("r1")]))]
+                    };
+                    if form == 0 {
+                        rep.nontrivial(&print_canonical(&p));
+                    }
+                    if let Err(f) = check_call(&p) {
+                        rep.violation(viol("pairs", f));
+                    }
+                    // and the direct pair, when the first call succeeds
+                    let p: BlockStmt = vec![let_("r1", calln(b, vec![s1.expr.clone()])), es(array(vec![ident("r1"), calln(b, vec![s2.expr.clone()])]))];
+                    if let Err(f) = check_call(&p) {
+                        rep.violation(viol("pairs", f));
+                    }
+                }
+            }
+        }
+    }
+    rep.sample(json!({"pair": "stel r1 = string(0.0); [r1, string(-0.0)]"}));
     // (3) round trips and idempotence
     for i in &ints {
         rep.eval();
